@@ -721,6 +721,8 @@ struct Watchdog {
   void start() {
     const Args& a = args();
     grace_s = a.thorough ? 30 : 12;
+    // the driver's own outer timeouts are 900 s (quick) / 7200 s (thorough) per process
+    hard_cap_s = a.thorough ? 6600 : 3000;
     if (a.kv.count("grace")) grace_s = atof(a.kv.at("grace").c_str());
     th = std::thread([this] {
       uint64_t last = progress_counter().load(std::memory_order_relaxed);
